@@ -183,6 +183,9 @@ def load_repo():
     repo = os.path.realpath(REPO)
     if repo not in sys.path[:1]:
         sys.path.insert(0, repo)
+    if os.environ.get("VP_BACKEND") == "standin":
+        # second CONFIGURATION (observation only): a pure-Python stand-in for pysecp256k1 makes the libsecp `try:` arms live
+        sys.path.insert(0, os.path.join(VERIF, "vpkg", "standin"))
     import btc_hd_wallet
     got = os.path.realpath(btc_hd_wallet.__file__)
     if not got.startswith(repo + os.sep):
@@ -197,4 +200,7 @@ def load_repo():
 
 def backend():
     import btc_hd_wallet.keys as keys
-    return "ecdsa-fallback" if hasattr(keys, "CURVE_ORDER") else "libsecp256k1"
+    if hasattr(keys, "CURVE_ORDER"):
+        return "ecdsa-fallback"
+    import pysecp256k1
+    return "libsecp256k1-standin" if "standin" in (pysecp256k1.__file__ or "") else "libsecp256k1"
